@@ -444,6 +444,7 @@ fn c13_bloom_foreign_image() {
 #[kani::proof]
 #[kani::unwind(8)]
 #[kani::stub(alloc::fmt::format, stub_format)]
+#[kani::stub(alloc::vec::Vec::with_capacity, crate::verif_kani_common::stub_with_capacity)]
 fn c14_bloom_deserialize_any_bytes() {
     bloom_any_bytes_case(false, false);
 }
@@ -457,6 +458,7 @@ fn c14_bloom_deserialize_any_bytes() {
 #[kani::proof]
 #[kani::unwind(8)]
 #[kani::stub(alloc::fmt::format, stub_format)]
+#[kani::stub(alloc::vec::Vec::with_capacity, crate::verif_kani_common::stub_with_capacity)]
 fn c14_bloom_deserialize_any_bytes_two_words() {
     bloom_any_bytes_case(false, true);
 }
@@ -475,13 +477,16 @@ fn c14_bloom_deserialize_any_bytes_two_words() {
 #[kani::proof]
 #[kani::unwind(8)]
 #[kani::stub(alloc::fmt::format, stub_format)]
+#[kani::stub(alloc::vec::Vec::with_capacity, crate::verif_kani_common::stub_with_capacity)]
 fn c14_bloom_deserialize_any_bytes_then_use() {
     bloom_any_bytes_case(true, false);
 }
 
 fn bloom_any_bytes_case(follow_up: bool, two_words: bool) {
     let mut img: [u8; 48] = kani::any();
-    let len: usize = kani::any();
+    // (the two-word instance reads the full 48 bytes: a slice of symbolic length defeats constant propagation
+    // over the literal num_longs field; truncated images are the *_any_bytes instance, thorough tier)
+    let len: usize = if two_words { 48 } else { kani::any() };
     kani::assume(len <= 48);
     if two_words {
         img[16] = 2;
@@ -501,7 +506,6 @@ fn bloom_any_bytes_case(follow_up: bool, two_words: bool) {
             assert!(g.bits_used() == (g.bit_array[0].count_ones() + g.bit_array[1].count_ones()) as u64, "accepted image whose bit count is not the population count");
         }
         if follow_up && g.bit_array.len() <= 2 && g.num_hashes <= 2 {
-            kani::cover!(g.bit_array.len() == 2);
             let _ = g.bits_used();
             let _ = g.capacity();
             let peer = g.clone();
